@@ -46,7 +46,7 @@ RULE = (
     "Non-trivial = at least 2 propagation steps and a non-identity weight vector; distinct = distinct digest of outputs."
 )
 ASSUMPTIONS = [
-    "trial converged by repeated calls of the library's own optimize() until the density matrix moves by < 1e-10 (runs where it does not converge are counted as precondition failures, not checked)",
+    "trial converged by an independent NumPy Hartree-Fock solver (models/scf.py); runs where it does not converge, the aufbau gap is < 1e-3 or the plain Roothaan iteration is unstable at the solution are counted as precondition failures, not checked",
     "cross-entry-point energy equality: 1e-9 relative without orbital relaxation, 1e-8 with it (the relaxed orbitals equal the converged ones only to SCF round-off)",
     "bit reproducibility is demanded of the program under a fixed XLA CPU configuration (single-threaded eigen, one intra-op thread), as the library itself configures",
 ]
@@ -156,23 +156,38 @@ def spec_of(cfg, n_batch=None):
 
 
 def converge_trial(s):
-    """Drive the library's own optimiser to a fixed point; rebuild intermediates."""
+    """Give the cell a converged trial.  The Hartree-Fock solution comes from an independent
+    NumPy solver (afqmcsim.models.scf), not from the library's own optimiser - a library
+    optimiser that is wrong would otherwise define what "converged" means.  Preconditions
+    (else the run is counted and skipped): the solver converged, the aufbau gap is > 1e-3 and
+    the plain Roothaan iteration (which the library runs 30 times inside the orbital-relaxation
+    entry points) is stable at the solution."""
+    import jax.numpy as jnp
+
+    from ..models import scf
+
     trial = s.trial
-    wd = dict(s.wave_data)
-    if type(trial).__name__ == "noci":
+    kind = type(trial).__name__
+    if kind == "noci":
         return True
-    rd = lambda w: np.asarray(trial._calc_rdm1(w))  # noqa: E731
-    d = 1.0
-    for _ in range(8):
-        new = trial.optimize(dict(s.ham_data), dict(wd))
-        d = float(np.max(np.abs(rd(new) - rd(wd))))
-        wd = dict(new)
-        if d < 1e-11:
-            break
+    h1 = np.asarray(s.ham_data_raw["h1"])
+    chol = np.asarray(s.ham_data_raw["chol"])
+    wd = dict(s.wave_data)
+    if kind == "rhf":
+        c0 = np.asarray(wd["mo_coeff"])
+        r = scf.solve(h1, chol, trial.nelec, c0, c0, restricted=True)
+        new = jnp.array(r["ca"])
+    else:
+        c0a, c0b = np.asarray(wd["mo_coeff"][0]), np.asarray(wd["mo_coeff"][1])
+        r = scf.solve(h1, chol, trial.nelec, c0a, c0b)
+        new = [jnp.array(r["ca"]), jnp.array(r["cb"])]
+    if not (r["converged"] and r["stable"] and r["gap"] > 1e-3):
+        return False
+    wd["mo_coeff"] = new
     s.wave_data = wd
     hd = s.ham.build_measurement_intermediates(dict(s.ham_data_raw), trial, wd)
     s.ham_data = s.ham.build_propagation_intermediates(hd, s.prop, trial, wd)
-    return d < 1e-10
+    return True
 
 
 def capped_estimator(s, pd, ham_data=None, wave_data=None):
